@@ -245,6 +245,37 @@ def check_misc(case):
          "{} @ {}".format(box, boxc))
     same((boxc @ box @ boxc).eval(), np.kron(np.kron(C, A), C),
          "diagram-tensor-is-kron", "{} @ {} @ {}".format(boxc, box, boxc))
+    # the same through a functor sending each object to a whole type (no
+    # wire, one, several): boxes with an idle object in between, after a swap
+    from discopy import rigid
+    x, y, z, w = map(rigid.Ty, "xyzw")
+    f, g = rigid.Box("f", x, y), rigid.Box("g", z, w)
+    F = tensor.Functor(
+        ob={x: Dim(*sa["dom"]), y: Dim(*sa["cod"]), z: Dim(*sc["dom"]),
+            w: Dim(*sc["cod"])},
+        ar={f: specs.cplx(sa["vals"], shape),
+            g: specs.cplx(sc["vals"], list(sc["dom"] + sc["cod"]))})
+    images = "x -> {}, y -> {}, z -> {}, w -> {}".format(
+        sa["dom"], sa["cod"], sc["dom"], sc["cod"])
+    na, nc = size(sa["dom"]), size(sc["dom"])
+    ma, mc = size(sa["cod"]), size(sc["cod"])
+    small = 2000   # entries of the largest matrix built below
+    if na * na * nc * ma * na * mc <= small:
+        same(F(f @ rigid.Id(x) @ g), np.kron(np.kron(A, ida), C),
+             "functor-idle-wire-between", images)
+    if nc * nc * na * na * mc * nc * na * ma <= small:
+        same(F(g @ rigid.Id(z @ x) @ f),
+             np.kron(np.kron(np.kron(C, idc), ida), A),
+             "functor-idle-wire-between", images)
+    if (na * nc * na * nc) ** 2 <= small:
+        same(F(rigid.Diagram.swap(x, z) @ rigid.Id(x) @ g), np.kron(np.kron(
+            perm_matrix(sa["dom"], sc["dom"]), ida), C),
+            "functor-idle-wire-after-swap", images)
+    if na * nc * ma * nc * mc * ma <= small:
+        same(F(f @ rigid.Id(z) >> rigid.Diagram.swap(y, z)
+               >> g @ rigid.Id(y)),
+             np.kron(A, idc) @ perm_matrix(sa["cod"], sc["dom"])
+             @ np.kron(C, np.eye(ma)), "functor-swap-naturality", images)
     same(a.tensor(b, c), np.kron(np.kron(A, B), C), "tensor-variadic")
     same(Tensor.id(Dim(1)).tensor(a, b, c), np.kron(np.kron(A, B), C),
          "tensor-variadic-from-unit")
